@@ -40,6 +40,9 @@ EXTRA = {"k": "v"}
 REG_MD = [None, EXTRA, {}]
 # extra metadata a subject puts into its credential: none / {"k":"v"} / a superset of it
 REQ_EXTRA = [None, EXTRA, {"k": "v", "role": "admin"}]
+# hand-crafted dishonest disclosures of D: what is wrong with the disclosure x which attestations ride along
+DIS_DEFECTS = ["forged-token-signature", "token-of-another-key", "altered-metadata-signature"]
+DIS_ATTS = ["none", "valid-last", "forged-first-valid-last"]
 FAKE_POINTER = bytes([0xFA]) * 32
 PAYLOADS = {1: DisclosePayload, 2: AttestPayload, 3: RequestMissingPayload, 4: MissingResponsePayload}
 KIND = {1: "disclose", 2: "attest", 3: "request-missing", 4: "missing-response"}
@@ -190,6 +193,8 @@ class Model(core.BfsModel):
             al += [("att", v) for v in ("T-valid", "D-carries-T", "D-own-from-T-address", "T-altered")]
         if "reqatt" in g:
             al += [("reqatt", s) for s in c["reqatt_subjects"]]
+        if "dis" in g:
+            al += [("dis", src, defect, att) for src in ("own", "other") for defect in DIS_DEFECTS for att in DIS_ATTS]
         self.alphabet = al
 
     def params(self) -> dict:
@@ -254,6 +259,8 @@ class Model(core.BfsModel):
                 before = len(sim.wire_log)
                 sim.nodes[s].run(o.ez_send, w.peer_of(s, "T"), DisclosePayload(*o._fit_disclosure(disclosure)))
                 self._record_request(w, s, before, (0, 0, "self-attested"))
+        elif kind == "dis":
+            self._dishonest_disclosure(w, *ev[1:])
         elif kind == "adv":
             s = ev[1]
             self._use(w, 0, 0)
@@ -304,6 +311,54 @@ class Model(core.BfsModel):
                     w.chain[s].open_to(w.key["T"])
                     w.labels[pointer] = ("tok", s, idx, h)
                     w.labels[md_hash] = ("md", s, idx, h, n, x)
+
+    def _dishonest_disclosure(self, w: W, src: str, defect: str, atts: str) -> None:
+        """
+        D makes a new, genuine credential for (h1, n1) and discloses it to T in a hand-made DisclosePayload (signed by
+        D, sent from D's own address or relayed from B's) that is broken in one way, optionally with attestation
+        blocks riding along (the last one validly signed by D over its own new metadata).
+        """
+        o = w.ov["D"]
+        self._use(w, 0, 0)
+        cred = w.sim.nodes["D"].run(o.self_advertise, HASHES[0], NAMES[0], "id_metadata", None)
+        if cred is None:
+            return
+        pointer, md_hash = cred.metadata.token_pointer, cred.metadata.get_hash()
+        idx = len(w.chain["D"].tokens)
+        w.chain["D"].created(pointer)
+        w.chain["D"].open_to(w.key["T"])
+        o.permissions[w.peer_of("D", "T")] = len(o.token_chain)
+        w.labels[pointer] = ("tok", "D", idx, 0)
+        w.labels[md_hash] = ("md", "D", idx, 0, 0, f"crafted:{defect}")
+        metadata, tokens, _, _ = o.pseudonym_manager.disclose_credentials([cred], set())
+        d_key = o.my_peer.key
+        if defect == "forged-token-signature":
+            extra = pointer + bytes([0xF0]) * 32 + bytes([1]) * w.slen
+            w.labels[refm.obj_hash(extra)] = ("tok-forged", "D", idx)
+            tokens += extra
+        elif defect == "token-of-another-key":
+            text = pointer + bytes([0xF1]) * 32
+            extra = text + w.ov["B"].my_peer.key.signature(text)
+            w.labels[refm.obj_hash(extra)] = ("tok-foreign", "D", idx)
+            tokens += extra
+        elif defect == "altered-metadata-signature":
+            metadata = metadata[:-1] + bytes([metadata[-1] ^ 1])
+            for h, *_ in refm.parse_metadata(metadata, w.slen):
+                w.labels[h] = ("md-altered", "D", idx)
+        else:
+            raise ValueError(defect)
+        valid = md_hash + d_key.signature(md_hash)
+        authority = len(w.key["D"]).to_bytes(2, "big") + w.key["D"]
+        if atts == "none":
+            attestations, authorities = b"", b""
+        elif atts == "valid-last":
+            attestations, authorities = valid, authority
+        elif atts == "forged-first-valid-last":
+            attestations, authorities = md_hash + bytes([2]) * w.slen + valid, authority * 2
+        else:
+            raise ValueError(atts)
+        w.inject("D" if src == "own" else "B", "T",
+                 w.pack("D", DisclosePayload(metadata, tokens, attestations, authorities)))
 
     def _attest_event(self, w: W, variant: str) -> None:
         b = w.ov["B"]
@@ -384,6 +439,10 @@ class Model(core.BfsModel):
                 att = refm.parse_attestation(msg.payload.attestation, w.slen)
                 pointer = att[0] if att else b""
                 verdict = w.consent[sender].judge_attest(pointer, w.now())
+                if (verdict is None and trigger is not None and trigger.msg_id in (1, 4) and trigger.signed
+                        and not refm.tokens_all_signed(trigger.payload.tokens, trigger.key)):
+                    verdict = ("disclosure-unverified", "it answers a disclosure that contains a token which is not "
+                                                        "validly signed by the discloser")
                 obs.append((sender, to, "attest", w.label(pointer), verdict[0] if verdict else "ok"))
                 if verdict:
                     w.bad(f"attest:{verdict[0]}",
@@ -471,7 +530,7 @@ class Model(core.BfsModel):
 # configurations
 # ------------------------------------------------------------------------------------------------------------------
 
-ALL_GROUPS = ["adv", "replay", "steal", "rm", "att", "reqatt"]
+ALL_GROUPS = ["adv", "replay", "steal", "rm", "att", "reqatt"]   # "dis" only in the dedicated family
 
 
 def _cfg(**kw) -> dict:  # noqa: ANN003
@@ -492,6 +551,9 @@ def configs(ctx: core.Ctx) -> list[tuple[Model, int]]:
     # token hand-out and incoming attestations: one hash/name, B requests and self-advertises, T/D ask for tokens
     tokens = _cfg(hashes=1, names=1, reg_keys=["B"], reg_md=[0], req_subjects=["B"], req_extra=[0], time=[301],
                   groups=["adv", "rm", "att", "replay"])
+    # dishonest disclosures: D holds (or gets) a registration for (h1, n1) and sends broken hand-made disclosures
+    forged = _cfg(hashes=1, names=1, reg_keys=["D"], reg_md=[0], req_subjects=["D"], req_extra=[0], time=[],
+                  groups=["dis"])
     full = _cfg()
     if ctx.thorough:
         return [
@@ -500,11 +562,13 @@ def configs(ctx: core.Ctx) -> list[tuple[Model, int]]:
             (Model("fields", fields, s), 4),
             (Model("fields-2x2", _cfg(hashes=1, reg_keys=["B"], req_subjects=["B"], groups=["replay"]), s), 5),
             (Model("tokens", tokens, s), 5),
+            (Model("forged", {**forged, "time": [301], "groups": ["dis", "replay"]}, s), 3),
         ]
     return [
         (Model("subjects", subjects, s), 4),
         (Model("fields", fields, s), 4),
         (Model("tokens", tokens, s), 4),
+        (Model("forged", forged, s), 3),
         (Model("full", full, s), 3),
     ]
 
